@@ -73,6 +73,12 @@ def gen_queries(rng, s):
                 a, b = Fraction(hv["times"][-2]), Fraction(hv["times"][-1])
                 qs.append({"kind": "state_at", "v": v, "j": coll.index(v), "m": m, "t": str(a + (b - a) * Fraction(rng.choice([1, 2, 3]), 4)),
                            "scaled": False, "extrapolate": rng.random() < 0.5})
+    # the same point outside the data asked twice in one transcription, with and without extrapolation, in both orders
+    v = coll[0]
+    vt = [Fraction(t) for t in s.get("var_times", {}).get(v, s["times"])]
+    for t, first in ((vt[-1] + Fraction(1, 2), True), (vt[0] - 50, False)):
+        for ex in (first, not first):
+            qs.append({"kind": "state_at", "v": v, "j": 0, "m": 0, "t": str(t), "scaled": False, "extrapolate": ex})
     ders = ["der(%s)" % x for x in s["states"]]
     e = tr.lin_expr(rng, coll + ders + s["constant_inputs"], 3, allow_nonlinear=True)
     qs.append({"kind": "map_path", "m": rng.randrange(E), "expr": e})
@@ -98,6 +104,8 @@ def impl_query(p, s, q, X, Xf):
             return fval(p.integral(q["v"], float(Fraction(q["a"])), float(Fraction(q["b"])), q["m"]), p, X)
         if q["kind"] == "states_in":
             return fval(p.states_in(q["v"], float(Fraction(q["a"])), float(Fraction(q["b"])), q["m"]), p, X)
+        if q["kind"] == "der_map":
+            return fval(p.map_path_expression(p.der(q["v"]), q["m"]), p, X)
         if q["kind"] == "map_path":
             sym = p._path_sym()
             e = problems.ast_casadi(q["expr"], sym)
@@ -231,7 +239,7 @@ def run(ctx):
                 if len(ctx.samples) < 3 and nontriv:
                     ctx.sample({"query": q, "impl": a, "model": [str(x) for x in bq] if not isinstance(bq, str) else bq})
                 continue
-            rep = {"spec": s, "queries": [q], "X": [str(x) for x in X], "query": q, "impl": a,
+            rep = {"spec": s, "queries": qs, "X": [str(x) for x in X], "query": q, "impl": a,
                    "model": [str(x) for x in bq] if not isinstance(bq, str) else bq}
             ref = reference(p, s, q, X, Xf)
             if ref is not None and not isinstance(a, str) and same(a, ref):
@@ -299,6 +307,7 @@ def alias_checks(ctx):
             t = rng.choice([h0, times[0] - Fraction(1, 4), times[0], times[-1], times[0] + (times[1] - times[0]) / 3])
             qs.append({"kind": "state_at", "t": str(t), "m": m, "scaled": False, "extrapolate": True})
             qs.append({"kind": "der_at", "t": str(rng.choice(times)), "m": m})
+        qs.append({"kind": "der_map", "m": m})          # der() inside an expression mapped over the horizon
         ctx.case_done(core.fingerprint(["alias", len(coll), E, v in s["states"], [q["kind"] for q in qs]]), True)
         ctx.count("alias_cases")
         for q in qs:
